@@ -29,9 +29,10 @@ func closers(w *World) []*closer {
 				lists = append(lists, st.Field(i))
 			}
 		}
-		if len(lists) >= 1 {
-			c.list = lists[0]
+		if len(lists) == 0 {
+			undecidedf("role %q: %s has no field of type []Disposable (the representation of the owner's disposal list changed: the rules about it cannot be decided)", "owner disposal list", o)
 		}
+		c.list = lists[0]
 		out = append(out, c)
 	}
 	return out
@@ -216,6 +217,7 @@ func (c *closer) mustAtWonExits(alts ...string) (string, bool) {
 
 // ruleSingleList: each owner tracks disposables in exactly one creation-ordered list.
 func ruleSingleList(w *World, r *Report, rule string) {
+	_ = closers(w) // undecided when an owner has no []Disposable field at all
 	for _, o := range []string{"scope", "provider"} {
 		_, st := w.Struct(w.Godi, o)
 		var lists []string
@@ -243,6 +245,7 @@ func ruleSingleList(w *World, r *Report, rule string) {
 func ruleDrainComplete(w *World, r *Report, rule string, la *LockAnalysis) {
 	for _, c := range closers(w) {
 		construct := c.fi.Name() + "#disposal-loop"
+		unknownOrigin := false
 		loops := c.drainLoops()
 		if len(loops) == 0 {
 			r.Fail(rule, construct, c.fi.Decl.Pos(), "%s contains no loop that calls Close() on the elements of %s.%s", c.fi.Name(), c.owner, nameOf(c.list))
@@ -256,7 +259,8 @@ func ruleDrainComplete(w *World, r *Report, rule string, la *LockAnalysis) {
 			case l.dir == "odd":
 				r.Fail(rule, con, l.head(), "disposal loop does not visit every element: %s", l.dirWhy)
 			case l.field == nil:
-				r.Fail(rule, con, l.head(), "disposal loop iterates over %s, which is not a snapshot of the owner's disposal list", objName(l.coll))
+				unknownOrigin = true
+				r.Undecided(rule, con, l.head(), "disposal loop iterates over %s, whose origin the analysis cannot trace to a field (not a plain copy, a collection loop or a recognised helper): whether it is a snapshot of the owner's disposal list is not decided", objName(l.coll))
 			case l.field != c.list:
 				r.Fail(rule, con, l.head(), "disposal loop iterates over %s, not over the owner's list %s", l.field.Name(), nameOf(c.list))
 			default:
@@ -267,9 +271,13 @@ func ruleDrainComplete(w *World, r *Report, rule string, la *LockAnalysis) {
 		if c.list != nil {
 			key := "closedall:" + w.canonField(c.list) + ":"
 			where, ok := c.mustAtWonExits(key+"rev", key+"fwd")
-			r.Check(ok, rule, c.fi.Name()+"#disposal-on-all-paths", c.fi.Decl.Pos(), true,
-				"every path past the gate completes the disposal loop",
-				"the exit at "+where+" is reached past the gate without having completed the disposal loop over "+c.owner+"."+c.list.Name())
+			if !ok && unknownOrigin {
+				r.Undecided(rule, c.fi.Name()+"#disposal-on-all-paths", c.fi.Decl.Pos(), "a disposal loop of unknown origin exists: whether every path past the gate drains %s.%s is not decided", c.owner, c.list.Name())
+			} else {
+				r.Check(ok, rule, c.fi.Name()+"#disposal-on-all-paths", c.fi.Decl.Pos(), true,
+					"every path past the gate completes the disposal loop",
+					"the exit at "+where+" is reached past the gate without having completed the disposal loop over "+c.owner+"."+c.list.Name())
+			}
 		}
 	}
 }
@@ -343,6 +351,45 @@ func ruleSwap(w *World, r *Report, rule string, la *LockAnalysis) {
 				}
 				return
 			}})
+			// x := drain(&recv.f): the private helper takes the snapshot and resets the field; both
+			// happen inside the call, hence in one critical section, unless the helper itself locks
+			for _, n := range u.flow.Nodes() {
+				for _, cc := range callsIn(n, false) {
+					cal := callee(info, cc)
+					if cal == nil || cal.Exported() {
+						continue
+					}
+					if o := cal.Origin(); o != nil {
+						cal = o
+					}
+					t := w.Decls[cal]
+					if t == nil {
+						continue
+					}
+					k := 0
+					for _, fl := range t.Decl.Type.Params.List {
+						for _, nm := range fl.Names {
+							if k < len(cc.Args) {
+								if ue, isU := unparen(cc.Args[k]).(*ast.UnaryExpr); isU && ue.Op == token.AND {
+									if fv := fieldOf(info, ue.X); fv != nil && assignsNilThrough(t.Pkg.TypesInfo, t, t.Pkg.TypesInfo.Defs[nm]) {
+										locks := false
+										for _, hc := range callsIn(t.Decl.Body, true) {
+											if _, _, _, isM := mutexOp(t.Pkg.TypesInfo, hc); isM {
+												locks = true
+											}
+										}
+										con := c.fi.Name() + "#reset:" + c.ca.w.canonName(fv)
+										r.Check(!locks, rule, con, cc.Pos(), true,
+											"snapshot and reset of "+fv.Name()+" happen inside one helper call made within the critical section",
+											fv.Name()+" is snapshotted and reset by "+t.Name()+", which takes locks of its own: the two are not one critical section")
+									}
+								}
+							}
+							k++
+						}
+					}
+				}
+			}
 			for _, n := range u.flow.Nodes() {
 				as, ok := n.(*ast.AssignStmt)
 				if !ok || len(as.Lhs) != len(as.Rhs) {
@@ -496,7 +543,15 @@ func ruleCascade(w *World, r *Report, rule string) {
 				found = l
 			}
 		}
+		unknown := false
+		for _, l := range c.scopeLoops() {
+			if l.field == nil {
+				unknown = true
+			}
+		}
 		switch {
+		case found == nil && unknown:
+			r.Undecided(rule, con, c.fi.Decl.Pos(), "%s closes the elements of a collection whose origin the analysis cannot trace to a field: whether it is a snapshot of %s.%s is not decided", c.fi.Name(), c.owner, table)
 		case found == nil:
 			r.Fail(rule, con, c.fi.Decl.Pos(), "%s has no loop closing every scope recorded in %s.%s", c.fi.Name(), c.owner, table)
 		case found.problem != "":
